@@ -337,7 +337,7 @@ def model_request(case: dict, root: Path, dest: Path, ex: list[str], prim: str, 
             {
                 "name": f["name"],
                 "value": model_tree(f["value"], case, root, oids),
-                "typed": bool(f.get("typed", True)),
+                "ty": field_ty(f),
                 "truthy": bool(f.get("truthy", True)),
                 "mode": MODES[f.get("mode", "hardlink_or_copy")],
                 "coll": COLLS[f.get("coll", "any")],
@@ -575,6 +575,150 @@ def same_shape(case_tree: dict, value, objs: list, labelled: dict, pairs: list) 
 
 
 # --------------------------------------------------------------------------------------
+# declared types of task input fields (C34): {"k":"file","n":cls} | {"k":"atom","n":name} | {"k":"union","a":[…]}
+# | {"k":"map","a":[K,V]} | {"k":"seq","o":"list"|"tuple"|"Sequence","a":[…],"ell":bool}
+
+ANY_OR_FILESET = {"k": "union", "a": [{"k": "atom", "n": "Any"}, {"k": "file", "n": "FileSet"}]}  # Any first: no coercion
+
+
+def field_ty(f: dict) -> dict:
+    """The declared type of a case field; older cases only say typed=True/False."""
+    if "ty" in f:
+        return f["ty"]
+    return ANY_OR_FILESET if f.get("typed", True) else {"k": "atom", "n": "Any"}
+
+
+def ty_python(t: dict):
+    from fileformats.generic import Directory, File, FileSet, FsObject
+    from fileformats.text import TextFile
+
+    k = t["k"]
+    if k == "file":
+        return {"File": File, "Directory": Directory, "FsObject": FsObject, "FileSet": FileSet, "TextFile": TextFile}[t["n"]]
+    if k == "atom":
+        return {"int": int, "str": str, "bool": bool, "None": type(None), "Any": ty.Any, "list": list, "dict": dict,
+                "tuple": tuple, "object": object}[t["n"]]  # fmt: skip
+    args = [ty_python(a) for a in t["a"]]
+    if k == "union":
+        return ty.Union[tuple(args)]
+    if k == "map":
+        return dict[args[0], args[1]]
+    if t["o"] == "list":
+        return list[args[0]]
+    if t["o"] == "Sequence":
+        return ty.Sequence[args[0]]
+    return tuple[tuple(args) + ((Ellipsis,) if t.get("ell") else ())]
+
+
+def ty_has_file(t: dict) -> bool:
+    """The oracle's own gate: does the declared type mention a file class ANYWHERE (any position, any depth)?"""
+    return t["k"] == "file" or any(ty_has_file(a) for a in t.get("a", []))
+
+
+def ty_str(t: dict) -> str:
+    k = t["k"]
+    if k in ("file", "atom"):
+        return t["n"]
+    a = ", ".join(ty_str(x) for x in t["a"])
+    if k == "union":
+        return f"Union[{a}]"
+    if k == "map":
+        return f"dict[{a}]"
+    return f"{t['o']}[{a}{', ...' if t.get('ell') else ''}]"
+
+
+def _F(n):
+    return {"k": "file", "n": n}
+
+
+def _A(n):
+    return {"k": "atom", "n": n}
+
+
+def _U(*a):
+    return {"k": "union", "a": list(a)}
+
+
+def _M(k, v):
+    return {"k": "map", "a": [k, v]}
+
+
+def _L(a):
+    return {"k": "seq", "o": "list", "a": [a], "ell": False}
+
+
+def _T(*a, ell=False):
+    return {"k": "seq", "o": "tuple", "a": list(a), "ell": ell}
+
+
+def type_templates() -> list[dict]:
+    """Declared types that matter for the staging gate: a file class at a non-first position of a tuple, inside lists of
+    such tuples, as dict values, in unions/optionals, deep down; and types that mention no file class at all."""
+    f, d, fs = _F("File"), _F("Directory"), _F("FsObject")
+    i, s, n, any_ = _A("int"), _A("str"), _A("None"), _A("Any")
+    return [
+        f, d, fs, _L(f), _M(s, f), _T(f, ell=True), _T(f, i),                       # a file class comes first
+        _T(i, f), _T(s, i, f), _T(i, s, d), _L(_T(s, f)), _L(_T(i, s, f)),         # …comes later in a fixed-length tuple
+        _M(s, _T(i, f)), _M(s, _L(f)), _M(s, _L(_T(s, d))),                         # …as dict values
+        _U(f, n), _U(i, f), _U(n, _T(i, f)), _U(s, _L(f)), _L(_U(n, f)), _T(i, _U(n, f)), _T(s, _U(i, _L(_T(i, fs)))),
+        _T(i, _L(_T(s, _M(s, f)))), _L(_L(f)), _T(i, any_, f), _T(any_, f), {"k": "seq", "o": "Sequence", "a": [_T(s, f)], "ell": False},
+        ANY_OR_FILESET, _T(i, ANY_OR_FILESET),
+        i, _L(i), _T(i, s), _M(s, i), any_, _L(any_), _T(i, any_), _A("list"), _A("dict"), _A("tuple"), _A("object"),  # no file class
+    ]  # fmt: skip
+
+
+def gen_typed_value(rng, t: dict, case_sets: list, objs: list, depth: int = 0):
+    """A nested value conforming to the declared type `t` (None if no suitable file object exists)."""
+    k = t["k"]
+    if k == "file":
+        ok = {"File": ("File", "TextFile"), "TextFile": ("TextFile",), "Directory": ("Directory",),
+              "FsObject": ("File", "TextFile", "Directory"), "FileSet": ("File", "TextFile", "Directory", "SetOf")}[t["n"]]  # fmt: skip
+        cand = [o for o, si in enumerate(objs) if case_sets[si]["cls"] in ok]
+        return {"o": rng.choice(cand)} if cand else None
+    if k == "atom":
+        n = t["n"]
+        if n == "int":
+            return {"a": rng.choice([0, 1, 7, 42])}
+        if n == "str":
+            return {"a": rng.choice(["s", "", "label", "x y"])}
+        if n == "bool":
+            return {"a": rng.choice([True, False])}
+        if n == "None":
+            return {"a": None}
+        if n in ("Any", "object"):
+            return gen_tree(rng, len(objs), rng.choice([0, 1, 2]), False, [], int_keys=False)
+        m = rng.choice([1, 2, 3])
+        if n == "list":
+            return {"l": [gen_tree(rng, len(objs), 1, False, [], int_keys=False) for _ in range(m)]}
+        if n == "tuple":
+            return {"t": [gen_tree(rng, len(objs), 1, False, [], int_keys=False) for _ in range(m)]}
+        return {"d": [[{"a": kk}, gen_tree(rng, len(objs), 1, False, [], int_keys=False)] for kk in rng.sample(["k", "n", "z"], m)]}
+    if k == "union":
+        arms = list(t["a"])
+        rng.shuffle(arms)
+        arms.sort(key=lambda a: not ty_has_file(a) if rng.random() < 0.7 else False)
+        for a in arms:
+            v = gen_typed_value(rng, a, case_sets, objs, depth + 1)
+            if v is not None:
+                return v
+        return None
+    m = rng.choice([1, 2, 2, 3]) if depth < 2 else rng.choice([1, 2])
+    if k == "map":
+        items = []
+        for kk in rng.sample(["k", "out.txt", "n", "x y", "z"], m):
+            v = gen_typed_value(rng, t["a"][1], case_sets, objs, depth + 1)
+            if v is None:
+                return None
+            items.append([{"a": kk}, v])
+        return {"d": items}
+    if t["o"] in ("list", "Sequence") or t.get("ell"):
+        vs = [gen_typed_value(rng, t["a"][0], case_sets, objs, depth + 1) for _ in range(m)]
+        return None if any(v is None for v in vs) else {("l" if t["o"] != "tuple" else "t"): vs}
+    vs = [gen_typed_value(rng, a, case_sets, objs, depth + 1) for a in t["a"]]
+    return None if any(v is None for v in vs) else {"t": vs}
+
+
+# --------------------------------------------------------------------------------------
 # generators
 
 
@@ -686,7 +830,7 @@ def basenames_by_field(case: dict) -> list[set]:
     out = []
     for f in case["fields"]:
         names = set()
-        if f.get("typed", True) and f.get("truthy", True):
+        if ty_has_file(field_ty(f)) and f.get("truthy", True):
             for o in tree_leaves(f["value"], []):
                 s = case["sets"][case["objs"][o]]
                 common = os.path.commonpath([os.path.dirname(p) for p in s["paths"]])
